@@ -438,7 +438,13 @@ class C12(Check):
         else:
             strat = simrt.Strategy('stall', p=rng.choice([0.0, 0.15]), thread=f'W{rng.randrange(len(scen["threads"]))}',
                                    k=rng.randrange(1, 120), seed=rng.randrange(1 << 30))
-        r = self.ch.run(scen, strat, probes=True)
+        delays = None
+        if rng.random() < 0.3:
+            # a long preemption of one thread at one line of acquire() / release()
+            delays = [{'thread': f'W{rng.randrange(len(scen["threads"]))}',
+                       'qual': rng.choice(['BaseFileLock.acquire', 'BaseFileLock.acquire', 'BaseFileLock.release', 'BaseFileLock._acquire']),
+                       'nth': rng.randint(1, 25), 'd': rng.choice([0.05, 0.2, 0.5])}]
+        r = self.ch.run(scen, strat, probes=True, delays=delays)
         res = CaseResult()
         st = res.stats
         res.sig = r.signature
@@ -447,12 +453,35 @@ class C12(Check):
         if r.verdict == 'watchdog':
             res.inconclusive = 'wall-clock watchdog'
             return res
+        what = {'scenario': scen, 'strategy': strat.describe()}
         if r.thread_errors:
+            if all('OSError' in repr(e[1]) for e in r.thread_errors):
+                # no fault is injected in this family: an OSError leaving acquire()/release()/__del__ is the lock's own
+                res.violate('C12:unexpected-oserror', 'a lock operation raised an OS error although nothing failed underneath',
+                            errors=repr(r.thread_errors[:2]), **what)
+                res.sample = {'kind': 'concurrent', 'scenario': scen, 'log': r.log[-40:]}
+                return res
             res.inconclusive = 'thread error: ' + repr(r.thread_errors[:2])
             return res
         st['executions'] += 1
         st['kind_concurrent'] += 1
-        what = {'scenario': scen, 'strategy': strat.describe()}
+        if r.sched.delays_fired:
+            st['concurrent_long_delay_injected'] += 1
+        # time bounds: a non-blocking attempt returns at once, a timed one within timeout (in-process stage) + timeout
+        # (OS stage) + one poll interval; long preemptions injected into that very thread meanwhile do not count
+        open_calls = {}
+        for e in r.log:
+            if e[0] == 't_call':
+                open_calls[e[1]] = e
+            elif e[0] == 't_ret' and e[1] in open_calls:
+                c = open_calls.pop(e[1])
+                t0, t1 = c[-1], e[-1]
+                inj = sum(d[2] for d in r.sched.delays_fired if d[0] == e[1] and t0 - 1e-9 <= d[3] <= t1 + 1e-9)
+                limit = 0.0 if c[2] == 'nb' or c[3] == 0 else 2 * c[3] + 0.05
+                st['acquire_time_bounds_judged'] += 1
+                if t1 - t0 - inj > limit + 1e-4:
+                    res.violate('C12:acquire-too-slow', 'a non-blocking / timed acquire took longer than its bound',
+                                thread=e[1], kind=c[2], timeout=c[3], took=t1 - t0, injected=inj, limit=limit, result=e[2], **what)
         if r.verdict is not None:
             res.violate('C12:blocks-although-free', f'{r.verdict} under concurrent use: an acquire never returned although '
                         'every holder releases', blocked=r.blocked, **what)
@@ -595,7 +624,8 @@ class C12(Check):
         return {'nontrivial': 5000 if q else 100000, 'faults_fired': 1000 if q else 30000,
                 'fault_fired_open': 100, 'fault_fired_lock': 100, 'fault_fired_unlock': 100,
                 'fault_fired_close': 100, 'seen_forced_at_depth': 50, 'seen_release_unheld': 100,
-                'seen_refused': 1000, 'seen_nested': 500, 'concurrent_contended': 2500 if q else 60000}
+                'seen_refused': 1000, 'seen_nested': 500, 'concurrent_contended': 2500 if q else 60000,
+                'acquire_time_bounds_judged': 4000 if q else 100000, 'concurrent_long_delay_injected': 800 if q else 20000}
 
     def extra_evidence(self, tier, agg):
         out = {}
